@@ -600,6 +600,10 @@ func (e *Engine) lock(fr *frame, p *value, write bool) {
 	} else {
 		e.blockUntil(fr.g, "RLock at "+e.where(fr.g), func() bool { return !ls.writer })
 		ls.readers++
+		if fr.g.rlocks == nil {
+			fr.g.rlocks = map[*value]int{}
+		}
+		fr.g.rlocks[p]++
 	}
 	e.heldLocks[p] = true
 }
@@ -617,6 +621,9 @@ func (e *Engine) unlock(fr *frame, p *value, write bool) {
 			goPanic("sync: RUnlock of unlocked RWMutex")
 		}
 		ls.readers--
+		if fr.g.rlocks[p] > 0 {
+			fr.g.rlocks[p]--
+		}
 	}
 	if !ls.writer && ls.readers == 0 {
 		delete(e.heldLocks, p)
